@@ -21,6 +21,12 @@ type vfPausePlan struct {
 	GapMs   int    `json:"gap_ms"`
 	Via     string `json:"via"` // api (what the prompt goroutine calls) or keys (Ctrl-C + q on the real filter)
 	Tau     int    `json:"timeout_s"`
+	// Stall: the server-to-client link stalls when the gate fires, the pauses happen during the stall (the
+	// last one ends after the read that was waiting has used up its timer) and the link recovers 200 ms
+	// after the last resume; the unpaused silence stays far below the timeout.
+	Stall bool `json:"link_stalls_around_the_pauses,omitempty"`
+	// ThenSilent: after the last resume the server is never heard again.
+	ThenSilent bool `json:"server_silent_after_resume,omitempty"`
 }
 
 func vfPauseScenarios() []vfScenario {
@@ -117,6 +123,24 @@ func vfPauseCase(c *vfCtx, si int, sc vfScenario, k int) {
 	case k%13 == 11:
 		class = "around"
 		plan.PauseMs = []int{[]int{tau * 900, tau * 1100}[r.Intn(2)]}
+	case k%13 == 10:
+		class = "then-silent"
+		plan.ThenSilent = true
+		plan.PauseMs = []int{[]int{200, 700}[r.Intn(2)]}
+		if r.Intn(2) == 0 {
+			plan.PauseMs = append(plan.PauseMs, 300)
+		}
+	case k%13 == 9:
+		class = "stall"
+		plan.Stall = true
+		plan.PauseMs = []int{200, tau * 850}
+		plan.GapMs = tau*300 - 200
+		if plan.Dir != "s2c" {
+			plan.Dir, msgs = "s2c", bs2c
+			plan.Index = vfMin(plan.Index, len(msgs)-1)
+			plan.Type = msgs[plan.Index].Type
+		}
+		plan.Before = true
 	default:
 		n := 1 + r.Intn(3)
 		for i := 0; i < n; i++ {
@@ -175,7 +199,15 @@ func vfPauseCase(c *vfCtx, si int, sc vfScenario, k int) {
 			mu.Lock()
 			windows = append(windows, window{p, rs})
 			mu.Unlock()
-			time.Sleep(time.Duration(plan.GapMs) * time.Millisecond)
+			last := i == len(plan.PauseMs)-1
+			if last && plan.ThenSilent {
+				s.srvW().SetSilent(true)
+			}
+			if last && plan.Stall {
+				time.Sleep(200 * time.Millisecond)
+			} else {
+				time.Sleep(time.Duration(plan.GapMs) * time.Millisecond)
+			}
 			bufAfter = ct.bufferSize.Load()
 		}
 	}
@@ -191,6 +223,11 @@ func vfPauseCase(c *vfCtx, si int, sc vfScenario, k int) {
 		}
 		fired = true
 		mu.Unlock()
+		if plan.Stall { // the link is held while the pauses happen
+			defer close(cyclesDone)
+			cycles()
+			return
+		}
 		go func() {
 			defer close(cyclesDone)
 			cycles()
@@ -250,7 +287,7 @@ func vfPauseCase(c *vfCtx, si int, sc vfScenario, k int) {
 		}
 	}
 	// (1) short pauses must complete
-	if class == "short" && (so.Kind != "success" || co.Kind != "success") {
+	if (class == "short" || class == "stall") && (so.Kind != "success" || co.Kind != "success") {
 		if vfIsTimeoutText(so.Text) || vfIsTimeoutText(co.Text) {
 			c.Slow("c18-short-pause-failed-timeout", "%s: pause(s) of %v ms (timeout %d s) at %s message %d (%s): server=%q client=%q", sc.Name, plan.PauseMs, tau, plan.Dir, plan.Index, plan.Type, vfClip(so.Text), vfClip(co.Text))
 		} else {
